@@ -1,158 +1,12 @@
-import Ruint.Gen.WordsUintMod
-import Ruint.Model.Canon
-import Ruint.Model.BitsRev
-import Ruint.Model.Mul
-import Ruint.Model.ModularLimbs
+import Ruint.Lemmas.GenUintModCanon
 import Ruint.Model.Redc
-import Ruint.Model.Cmp
-import Ruint.Lemmas.Canon
-import Ruint.Lemmas.GenUint
-import Ruint.Lemmas.GenShift
-import Ruint.Lemmas.GenBitsWrap
-import Ruint.Lemmas.GenAddmul
-import Ruint.Lemmas.GenCmp
-import Ruint.Lemmas.ModularLimbs
-import Ruint.Lemmas.Div.GenUintDiv
 import Ruint.Lemmas.GenRedcLoops
 import Ruint.Lemmas.GenRedcSquare
 import Ruint.Lemmas.RedcSq
-
-/-! `from_limbs`, `from_limbs_unmasked` (`src/lib.rs`), `next_power_of_two` (`src/special.rs`), `widening_mul`
-    (`src/mul.rs`), `mul_mod`, `mul_redc`, `square_redc` (`src/modular.rs`) and `Ord::cmp` (`src/cmp.rs`) as GENERATED
-    from the source (`Gen/WordsUintMod.lean`) equal the hand-written models the property theorems are about. The tie of
-    the generated `algorithms::div` to its model is an explicit hypothesis `HD` of `mul_mod_eq`. -/
-set_option autoImplicit false
+/-! Part of the ties of `Gen/WordsUintMod.lean` (split per property so that a change to one source function breaks only the
+    obligations of the properties resting on it). -/
 namespace Ruint.GenUintMod
 open Ruint
-
-/-! ### `from_limbs`, `from_limbs_unmasked` -/
-
-/-- **`Uint::from_limbs` as generated from `src/lib.rs`** (with its `assert!`) equals the C04 model. -/
-theorem from_limbs_eq (bits : ℕ) (hN : nlimbs bits < 2 ^ 64) (l : List ℕ) (hl : l.length = nlimbs bits) :
-    Ruint.Gen.uint_from_limbs bits (nlimbs bits) l = Ruint.Canon.fromLimbs bits l := by
-  unfold Ruint.Gen.uint_from_limbs Ruint.Canon.fromLimbs Ruint.Canon.shouldMask Ruint.Canon.top
-  rw [GenCore.mask_eq]
-  by_cases h0 : bits = 0
-  · subst h0; simp
-  · have hb : 0 < bits := Nat.pos_of_ne_zero h0
-    have hn := nlimbs_pos bits hb
-    have hg := Ruint.GenShift.getD_getLast l (by omega)
-    rw [hl] at hg
-    rw [Ruint.GenUint.wsub_one _ hn hN, hg]
-    have hW : W - 1 = 2 ^ 64 - 1 := rfl
-    obtain ⟨M, hM⟩ : ∃ M, M = 2 ^ 64 - 1 := ⟨_, rfl⟩
-    rw [hW, ← hM]
-    by_cases hm : mask bits = M
-    · simp [hm]
-    · by_cases ht : l.getLast?.getD 0 ≤ mask bits
-      · simp [hb, hm, ht, Nat.not_lt.mpr ht]
-      · simp [hb, hm, ht, Nat.not_le.mp ht]
-
-/-- **`Uint::from_limbs_unmasked` as generated from `src/lib.rs`** equals the C04 model. -/
-theorem from_limbs_unmasked_eq (bits : ℕ) (hN : nlimbs bits < 2 ^ 64) (l : List ℕ) (hl : l.length = nlimbs bits)
-    (hw : Ruint.AllLt l) :
-    Ruint.Gen.uint_from_limbs_unmasked bits (nlimbs bits) l = Ruint.Canon.fromLimbsUnmasked bits l := by
-  unfold Ruint.Gen.uint_from_limbs_unmasked Ruint.Canon.fromLimbsUnmasked
-  rw [Ruint.Canon.masked_eq_maskTop bits l hl hw]
-  by_cases h0 : bits = 0
-  · subst h0
-    have : l = [] := by simpa [nlimbs] using hl
-    subst this
-    simp [Ruint.Gen.uint_masked, maskTop]
-  · exact Ruint.GenUint.masked_eq bits (Nat.pos_of_ne_zero h0) hN l hl hw
-
-/-! ### `next_power_of_two` -/
-
-/-- **`Uint::next_power_of_two` as generated from `src/special.rs`** (`checked_next_power_of_two().unwrap()`). -/
-theorem next_power_of_two_eq (bits : ℕ) (hN : nlimbs bits < 2 ^ 57) (a : List ℕ) (ha : Canon bits a) :
-    Ruint.Gen.uint_next_power_of_two (nlimbs bits + 1) bits (nlimbs bits) a = Ruint.Bits.nextPowerOfTwo bits a := by
-  unfold Ruint.Gen.uint_next_power_of_two Ruint.Bits.nextPowerOfTwo
-  rw [Ruint.GenBitsWrap.checked_next_power_of_two_eq bits hN a ha]
-  cases Ruint.Bits.checkedNextPowerOfTwo bits a <;> rfl
-
-/-! ### `Ord::cmp` -/
-
-/-- **`Ord::cmp for Uint` as generated from `src/cmp.rs`** is the model `Cmp.cmp`. -/
-theorem cmp_eq (bits LIMBS : ℕ) (a b : List ℕ) (h64 : min a.length b.length < 2 ^ 64) (f : ℕ)
-    (hf : min a.length b.length < f) :
-    Ruint.Gen.uint_cmp f bits LIMBS a b = Ruint.Cmp.cmp a b := by
-  unfold Ruint.Gen.uint_cmp
-  exact Ruint.GenCmp.limb_cmp_eq a b h64 f hf
-
-/-! ### `widening_mul` -/
-
-/-- **`Uint::widening_mul` as generated from `src/mul.rs`** (two `assert_eq!`, `addmul` into a zero result). -/
-theorem widening_mul_eq (bits bitsRhs bitsRes limbsRes : ℕ) (hB : bits + bitsRhs + 63 < 2 ^ 64) (a b : List ℕ)
-    (ha : Ruint.AllLt a) (hb : Ruint.AllLt b) (hla : a.length < 2 ^ 64) (hlb : b.length < 2 ^ 64) (f : ℕ)
-    (hlen : limbsRes + a.length + b.length < f) :
-    Ruint.Gen.uint_widening_mul f bitsRhs (nlimbs bitsRhs) bitsRes limbsRes bits (nlimbs bits) a b
-      = Ruint.Mul.wideningMulG bits bitsRhs bitsRes limbsRes a b := by
-  unfold Ruint.Gen.uint_widening_mul Ruint.Mul.wideningMulG
-  have hw : Rs.wadd 64 bits bitsRhs = bits + bitsRhs := by unfold Rs.wadd; omega
-  rw [hw]
-  dsimp only
-  by_cases h1 : bitsRes = bits + bitsRhs
-  · obtain ⟨S, hS⟩ : ∃ S, S = bits + bitsRhs := ⟨_, rfl⟩
-    rw [← hS] at h1 ⊢
-    subst h1
-    have hn : Ruint.Gen.nlimbs bitsRes = nlimbs bitsRes := GenCore.nlimbs_eq bitsRes (by omega)
-    rw [hn]
-    by_cases h2 : limbsRes = nlimbs bitsRes
-    · have hzl : AllLt (List.replicate limbsRes 0) := by
-        intro x hx; rw [List.eq_of_mem_replicate hx]; exact W_pos
-      have hl64 : limbsRes < 2 ^ 64 := by rw [h2]; unfold nlimbs; omega
-      rw [Ruint.GenAddmul.addmul_eq (List.replicate limbsRes 0) a b hzl ha hb
-        (by rw [List.length_replicate]; exact hl64) hla hlb f (by rw [List.length_replicate]; exact hlen)]
-      simp [h2]
-    · simp [h2]
-  · simp [h1]
-
-/-! ### `mul_mod` -/
-
-section
-variable (HD : ∀ (num ds : List ℕ), Ruint.AllLt num → Ruint.AllLt ds → num.length < 2 ^ 64 → ds.length < 2 ^ 64 →
-  ∀ f : ℕ, num.length + 1 < f → Ruint.Gen.div f num ds = Ruint.Div.div num ds)
-include HD
-
-/-- **`Uint::mul_mod` as generated from `src/modular.rs`** (zero buffer of `nlimbs(2·BITS)` limbs, generated `addmul`,
-    generated `algorithms::div`, the remainder left in the modulus' limbs) equals the limb-level model. -/
-theorem mul_mod_eq (bits : ℕ) (hB : 2 * bits + 63 < 2 ^ 64) (a b m : List ℕ)
-    (ha : Canon bits a) (hb : Canon bits b) (hm : Canon bits m) (f : ℕ) (hf : 4 * nlimbs bits + 2 < f) :
-    Ruint.Gen.uint_mul_mod f bits (nlimbs bits) a b m = Ruint.ModularL.mulMod bits a b m := by
-  unfold Ruint.Gen.uint_mul_mod Ruint.ModularL.mulMod
-  rw [Ruint.Div.GenUintDiv.is_zero_eq bits m hm.1]
-  by_cases hz : DivU.isZero m = true
-  · simp only [hz, if_true]; rfl
-  · simp only [hz, if_false, Bool.false_eq_true]
-    have hw : Rs.wmul 64 2 bits = 2 * bits := by unfold Rs.wmul; omega
-    rw [hw, GenCore.nlimbs_eq (2 * bits) hB]
-    have h2n : nlimbs (2 * bits) ≤ 2 * nlimbs bits := by unfold nlimbs; omega
-    have hn57 : nlimbs bits < 2 ^ 58 := by unfold nlimbs; omega
-    have hzl : AllLt (List.replicate (nlimbs (2 * bits)) 0) := by
-      intro x hx; rw [List.eq_of_mem_replicate hx]; exact W_pos
-    have hzv : val (List.replicate (nlimbs (2 * bits)) 0) = 0 := by
-      have := (Add.zero_canon (2 * bits)).2; unfold Add.zero at this; exact this
-    rw [Ruint.GenAddmul.addmul_eq (List.replicate (nlimbs (2 * bits)) 0) a b hzl ha.2.1 hb.2.1
-      (by rw [List.length_replicate]; omega) (by rw [ha.1]; omega) (by rw [hb.1]; omega) f
-      (by rw [List.length_replicate, ha.1, hb.1]; omega)]
-    obtain ⟨p1, p2, p3, p4⟩ := Ruint.C15.addmul_spec (List.replicate (nlimbs (2 * bits)) 0) a b hzl
-    obtain ⟨pr, hpr⟩ : ∃ pr, pr = Limb.addmul W (List.replicate (nlimbs (2 * bits)) 0) a b := ⟨_, rfl⟩
-    rw [← hpr] at p1 p2 p3 p4 ⊢
-    obtain ⟨prod, ov⟩ := pr
-    simp only at p1 p2 p3 p4 ⊢
-    rw [List.length_replicate, hzv, Nat.zero_add] at p4
-    rw [List.length_replicate] at p1
-    have hfit := Modular.mul_fits bits (val a) (val b) ha.2.2 hb.2.2
-    have hov : ov = false := by
-      cases ov
-      · rfl
-      · have := p4.1 rfl; omega
-    subst hov
-    simp only [Bool.false_eq_true, if_false]
-    rw [HD prod m p2 hm.2.1 (by rw [p1]; omega) (by rw [hm.1]; omega) f (by rw [p1]; omega)]
-    rcases Div.div prod m with _ | ⟨q, r⟩ <;> rfl
-
-end
 
 /-! ### `mul_redc`, `square_redc`
 
@@ -377,5 +231,6 @@ theorem square_redc_eq (bits : ℕ) (hN : nlimbs bits < 2 ^ 64) (a md : List ℕ
     | true =>
       simp only [if_true] at hm
       rw [from_limbs_of_checked bits hN r0 md r (by omega) hm]
+
 
 end Ruint.GenUintMod
